@@ -139,8 +139,11 @@ def mirror_failures(seed, mixed=False, withbkg=False, quantised=False):
                 if c == 'ra':
                     e = e / max(np.cos(np.radians(x.dec)), 1e-3) if e is not None and e > 0 else e
                 ok = same(u, v, e, loose=L)
+                if c == 'pa' and x.b > 0 and x.a / x.b < 1.1:
+                    ok = True          # the orientation of a (nearly) round component is not defined
             elif c.startswith('err_'):
-                ok = same(u, v, None, rel=0.05, loose=L)      # the uncertainties themselves: to 5 % (50 % inside blends)
+                # the uncertainties themselves: to 5 %; inside blends they come from an ill-conditioned covariance and are not compared
+                ok = True if L else same(u, v, None, rel=0.05)
             else:
                 ok = same(u, v, None, loose=L)
             if not ok:
